@@ -370,6 +370,8 @@ class Sx:
     def _coerce(self, o):
         if isinstance(o, Sx):
             return o
+        if isinstance(o, Qx):
+            return None      # Sx (op) Qx is handled by Qx's reflected operators
         if isinstance(o, (int, Fraction, float, complex, truenp.number, truenp.bool_)):
             return Sx.const(o, self.ctx)
         return None
@@ -482,7 +484,7 @@ class Sx:
         if k is not None and k != 0:
             self.ctx.nonzero_assumed.append(k)
             return zc * Sx.from_k(1 / k, self.ctx)
-        raise NotEncodable('division by a non-invertible symbolic value (%d terms)' % len(self.t))
+        return Qx(Sx.const(1, self.ctx), self)
 
     def __truediv__(self, o):
         o = self._coerce(o)
@@ -1441,3 +1443,109 @@ def subs_sx(x, ctx, subs):
             c = -c
         out = out + Sx({(m, r, p): c}, ctx)
     return out
+
+
+# ---------------------------------------------------------------------------------------------
+# quotients of general symbolic values (denominators that are phasor sums / content polynomials)
+# ---------------------------------------------------------------------------------------------
+
+class Qx:
+    """num/den with num, den Sx; no normalisation.  Equality is decided by cross-multiplication."""
+    __slots__ = ('num', 'den', 'ctx')
+
+    def __init__(self, num, den):
+        self.num, self.den, self.ctx = num, den, num.ctx
+
+    @staticmethod
+    def lift(v, ctx):
+        if isinstance(v, Qx):
+            return v
+        if isinstance(v, Sx):
+            return Qx(v, Sx.const(1, ctx))
+        if isinstance(v, (int, Fraction, float, complex, truenp.number)):
+            return Qx(Sx.const(v, ctx), Sx.const(1, ctx))
+        return None
+
+    def _bin(self, o, f):
+        o = Qx.lift(o, self.ctx)
+        if o is None:
+            return NotImplemented
+        return f(self, o)
+
+    def __add__(self, o):
+        return self._bin(o, lambda a, b: Qx(a.num * b.den + b.num * a.den, a.den * b.den) if a.den is not b.den else Qx(a.num + b.num, a.den))
+    __radd__ = __add__
+
+    def __sub__(self, o):
+        return self._bin(o, lambda a, b: Qx(a.num * b.den - b.num * a.den, a.den * b.den) if a.den is not b.den else Qx(a.num - b.num, a.den))
+
+    def __rsub__(self, o):
+        return self._bin(o, lambda a, b: Qx(b.num * a.den - a.num * b.den, a.den * b.den))
+
+    def __mul__(self, o):
+        return self._bin(o, lambda a, b: Qx(a.num * b.num, a.den * b.den))
+    __rmul__ = __mul__
+
+    def __truediv__(self, o):
+        return self._bin(o, lambda a, b: Qx(a.num * b.den, a.den * b.num))
+
+    def __rtruediv__(self, o):
+        return self._bin(o, lambda a, b: Qx(b.num * a.den, b.den * a.num))
+
+    def __neg__(self):
+        return Qx(-self.num, self.den)
+
+    def __pos__(self):
+        return self
+
+    def __pow__(self, e):
+        if isinstance(e, Sx):
+            e = e.as_fraction()
+        if isinstance(e, Fraction) and e.denominator == 1:
+            e = int(e)
+        if not isinstance(e, int):
+            raise NotEncodable('non-integer power of a quotient')
+        if e >= 0:
+            return Qx(self.num ** e, self.den ** e)
+        return Qx(self.den ** (-e), self.num ** (-e))
+
+    def conjugate(self):
+        return Qx(self.num.conjugate(), self.den.conjugate())
+    conj = conjugate
+
+    @property
+    def real(self):
+        return (self + self.conjugate()) * Fraction(1, 2)
+
+    @property
+    def imag(self):
+        mi = Sx({((), _HALF, self.ctx.K0): self.ctx.k(Fraction(-1, 2))}, self.ctx)
+        return (self - self.conjugate()) * mi
+
+    def __abs__(self):
+        raise NotEncodable('abs of a symbolic quotient (use abs2)')
+
+    def abs2(self):
+        return self * self.conjugate()
+
+    def eval(self, env):
+        return self.num.eval(env) / self.den.eval(env)
+
+    def is_real_syntactic(self):
+        return False
+
+    def __repr__(self):
+        return '[%r] / [%r]' % (self.num, self.den)
+
+    def __hash__(self):
+        return hash((self.num, self.den))
+
+    def __eq__(self, o):
+        o = Qx.lift(o, self.ctx)
+        if o is None:
+            return False
+        return (self.num * o.den) == (o.num * self.den)
+
+    def __ne__(self, o):
+        r = self.__eq__(o)
+        return (not r) if isinstance(r, bool) else ~r
